@@ -70,7 +70,13 @@ class _SSHAuthorizedKeyEntry(OptionsParser):
             pass
 
         try:
-            self.cert = cast(SSHX509Certificate, import_certificate(line))
+            cert = import_certificate(line)
+
+            if not cert.is_x509:
+                raise KeyImportError('Only keys and X.509 certificates '
+                                     'can be listed')
+
+            self.cert = cast(SSHX509Certificate, cert)
 
             if ('cert-authority' in self.options and
                     self.cert.subject != self.cert.issuer):
